@@ -93,6 +93,8 @@ func newTerminal(f Frontend, backend Backend, mode TextReadMode) *terminal {
 }
 
 func (t *terminal) SetFrontend(f Frontend) {
+	t.Lock()
+	defer t.Unlock()
 	t.frontend = f
 	t.mainScreen.SetFrontend(f)
 	t.altScreen.SetFrontend(f)
@@ -144,8 +146,11 @@ type winsize struct {
 }
 
 func (t *terminal) Resize(w, h int) error {
-	t.mainScreen.setSize(w, h)
-	t.altScreen.setSize(w, h)
+	// setSize changes both buffers and calls the frontend: hold the lock like every other mutation.
+	t.WithLock(func() {
+		t.mainScreen.setSize(w, h)
+		t.altScreen.setSize(w, h)
+	})
 
 	if t.backend == nil {
 		return nil
@@ -228,7 +233,13 @@ const (
 // x and y should start at 1
 // wheel events should use btn1 for wheel up, btn2 for wheel down, true for press, and M_wheel for mods
 func (t *terminal) SendMouseRaw(btn MouseBtn, press bool, mods MouseFlag, x, y int) error {
-	switch t.viewInts[VIMouseMode] {
+	// The mode registers are written by the read loop under the lock.
+	t.Lock()
+	mouseMode := t.viewInts[VIMouseMode]
+	mouseEncoding := t.viewInts[VIMouseEncoding]
+	t.Unlock()
+
+	switch mouseMode {
 	case MMNone:
 		return nil
 	case MMPress:
@@ -246,7 +257,6 @@ func (t *terminal) SendMouseRaw(btn MouseBtn, press bool, mods MouseFlag, x, y i
 	case MMPressReleaseMoveAll:
 	}
 
-	mouseEncoding := t.viewInts[VIMouseEncoding]
 	switch mouseEncoding {
 	case MEX10:
 		btnByte := (byte(btn) & mWhichBtn) | byte(mods)
